@@ -98,13 +98,26 @@ type Log struct {
 	mu      sync.Mutex
 	entries []*Entry
 	running int
+	nilEvs  []*Entry // invocations with a nil event: they carry no provenance, so no Send's entry list holds them
 }
 
 func (l *Log) add(e *Entry) {
 	l.mu.Lock()
 	l.entries = append(l.entries, e)
+	if e.Ev == nil {
+		l.nilEvs = append(l.nilEvs, e)
+	}
 	l.running++
 	l.mu.Unlock()
+}
+
+// TakeNilEvents returns (and forgets) the invocations that were handed a nil event.
+func (l *Log) TakeNilEvents() []*Entry {
+	l.mu.Lock()
+	defer l.mu.Unlock()
+	out := l.nilEvs
+	l.nilEvs = nil
+	return out
 }
 
 func (l *Log) done(e *Entry, ev *eventlogger.Event, err error) {
